@@ -321,3 +321,164 @@ def gen_history(rng, n: int, *, weights: dict | None = None) -> list:
         sh.apply(c)
         out.append(c)
     return out
+
+
+# ------------------------------------------------------------------ monitors
+def _msgs(d: dict) -> dict:
+    """dump -> {(folder, uid): (flags, body)}"""
+    out = {}
+    for name, f in d['folders'].items():
+        for m in f['msgs']:
+            out[(name, m['uid'])] = (m['flags'], m['body'])
+    return out
+
+
+def _retarget(name: str, a: str, b_: str) -> str:
+    if name == a:
+        return b_
+    if name.startswith(a + '/'):
+        return b_ + name[len(a):]
+    return name
+
+
+def acked_count(cr: dict) -> int:
+    return len(cr['acks'])
+
+
+def durability_failures(res: dict, cr: dict) -> list[tuple[str, str, dict]]:
+    """The C15 oracle, written against the property statement (not the
+    model): compare what a fresh server serves from the crashed directory
+    with the states the crashed server had acknowledged.
+    Returns (clause, text, observation) triples."""
+    ref = res['ref']
+    cmds = ref['cmds']
+    a = acked_count(cr)                       # commands 0..a-1 were answered
+    dumps = [ref['dump0']] + [c['dump'] for c in cmds]
+    prev = dumps[a]
+    nxt = dumps[a + 1] if a < len(cmds) else prev
+    inflight = _tup(cmds[a]['cmd']) if a < len(cmds) else None
+    fails: list[tuple[str, str, dict]] = []
+    raw = cr['dump_raw']
+    rec = cr.get('dump_aged', raw)
+    # -- a lock file left behind blocks the folder until it is 600 s old
+    if cr['locks']:
+        blocked = [e['folder'] for e in raw['errors'] if e['status'] == 'NO'
+                   and 'TIMEOUT' in e['resp']]
+        acked_blocked = [f for f in blocked if f in prev['folders']]
+        if acked_blocked or raw.get('lsub_status') == 'NO':
+            fails.append(('served_after_restart',
+                          f'after a kill at operation {cr["k"]} the lock file(s) {cr["locks"]} '
+                          f'remain and a restarted server answers NO [TIMEOUT] for '
+                          f'{acked_blocked or "LSUB"} until they are 600 s old',
+                          {'kind': 'stale_lock'}))
+    ren = None
+    if inflight and inflight[0] == 'rename':
+        ren = (M.mbx_name(inflight[1]).decode(), M.mbx_name(inflight[2]).decode())
+
+    def names(f):
+        return {f, _retarget(f, *ren)} if ren else {f}
+
+    pm, nm, rm = _msgs(prev), _msgs(nxt), _msgs(rec)
+    if ren:
+        nm = pm            # a rename changes no message
+    # -- every acknowledged mailbox is listed and readable
+    for f in prev['list']:
+        if ren is None and f not in nxt['list']:
+            continue
+        got = [g for g in names(f) if g in rec['list']]
+        if not got:
+            fails.append(('creations_persist', f'mailbox {f} is no longer listed after a kill '
+                          f'at operation {cr["k"]}', {'kind': 'lost_mailbox'}))
+            continue
+        if f in prev['folders'] and not any(g in rec['folders'] for g in got):
+            err = [e for e in rec['errors'] if e['folder'] in got]
+            fails.append(('control_files_readable',
+                          f'mailbox {f} cannot be opened after a kill at operation {cr["k"]}: '
+                          f'{err[:1]}', {'kind': 'unreadable', 'status': err[0]['status'] if err else '?'}))
+    # -- messages
+    for (f, uid), (fl, body) in pm.items():
+        cands = [rm.get((g, uid)) for g in names(f)]
+        cands = [c for c in cands if c is not None]
+        same_after = nm.get((f, uid))
+        vals_prev = prev['folders'][f]['validity']
+        for g in names(f):
+            if g in rec['folders'] and rec['folders'][g]['validity'] != vals_prev:
+                cands = []      # UIDVALIDITY changed: UIDs need not survive, bodies must
+                bodies = [m['body'] for m in rec['folders'][g]['msgs']]
+                if body in bodies:
+                    cands = [(fl, body)]
+        if same_after == (fl, body) or ren:
+            if (fl, body) not in cands:
+                kind = 'lost_message' if not cands else \
+                    ('changed_content' if cands[0][1] != body else 'changed_flags')
+                fails.append(('served_after_restart',
+                              f'{f} uid {uid} acknowledged with flags {fl!r} is served as '
+                              f'{[(c[0], M.cid_of(bytes.fromhex(c[1]))) for c in cands]} after a '
+                              f'kill at operation {cr["k"]}', {'kind': kind}))
+        else:
+            allowed = [(fl, body)] + ([same_after] if same_after else [])
+            if cands and cands[0] not in allowed:
+                fails.append(('served_after_restart',
+                              f'{f} uid {uid}: served {cands[0][0]!r} which is neither the state '
+                              f'before nor after the interrupted command', {'kind': 'changed_flags'}))
+            if not cands and same_after is not None:
+                fails.append(('served_after_restart',
+                              f'{f} uid {uid} lost by an interrupted {inflight[0]} that only '
+                              f'changes flags', {'kind': 'lost_message'}))
+    # -- nothing unknown appears; uids are never handed to another message
+    new_bodies = {v[1] for k_, v in nm.items() if k_ not in pm or pm[k_][1] != v[1]}
+    if a < len(cmds):
+        new_bodies |= {m['body'] for f in nxt['folders'].values() for m in f['msgs']}
+    known_bodies = {v[1] for v in pm.values()} | new_bodies
+    seen: dict = {}
+    for d in dumps[:a + 2]:
+        for name, f in d['folders'].items():
+            for m in f['msgs']:
+                seen.setdefault((f['validity'], m['uid']), set()).add(m['body'])
+    for name, f in rec['folders'].items():
+        uids = [m['uid'] for m in f['msgs']]
+        if len(set(uids)) != len(uids):
+            fails.append(('uid_unique', f'{name} serves a uid twice: {uids}', {'kind': 'dup_uid'}))
+        for m in f['msgs']:
+            if m['body'] not in known_bodies:
+                fails.append(('served_after_restart',
+                              f'{name} uid {m["uid"]} has content never stored (cid {m["cid"]})',
+                              {'kind': 'phantom_message'}))
+            old = seen.get((f['validity'], m['uid']))
+            if old and m['body'] not in old:
+                fails.append(('uid_unique',
+                              f'{name} uid {m["uid"]} (validity {f["validity"]}) was the uid of '
+                              f'another message before the kill at operation {cr["k"]}',
+                              {'kind': 'uid_reuse'}))
+        top = max([m['uid'] for d in dumps[:a + 1] for g in d['folders'].values()
+                   if g['validity'] == f['validity'] for m in g['msgs']], default=0)
+        top = max([top] + [g['uidnext'] - 1 for d in dumps[:a + 1]
+                           for g in d['folders'].values() if g['validity'] == f['validity']])
+        if f['uidnext'] <= top or (uids and f['uidnext'] <= max(uids)):
+            fails.append(('uid_unique', f'{name}: UIDNEXT {f["uidnext"]} does not exceed the '
+                          f'uids already used (max {max([top] + uids)})', {'kind': 'uidnext_low'}))
+    # -- subscriptions acknowledged before and not being changed persist
+    if rec.get('lsub_status') == 'OK':
+        for n in set(prev['lsub']) & set(nxt['lsub']):
+            if n not in rec['lsub'] and not (ren and _retarget(n, *ren) != n):
+                fails.append(('subscriptions_persist', f'subscription {n} lost after a kill at '
+                              f'operation {cr["k"]}', {'kind': 'lost_subscription'}))
+    # -- everything acknowledged: the restart serves exactly the last state
+    if a == len(cmds):
+        if _msgs(rec) != pm or sorted(rec['list']) != sorted(prev['list']) \
+                or sorted(rec['lsub']) != sorted(prev['lsub']):
+            fails.append(('clean_restart', 'a server restarted after the whole history serves '
+                          'something else than the stopped one', {'kind': 'restart_differs'}))
+    return fails
+
+
+def determinism_ok(res: dict, cr: dict) -> bool:
+    """The killed run must have executed a prefix of the reference trace."""
+    flat = [tuple(e) for c in res['ref']['cmds'] for e in c['events']]
+    got = [tuple(e) for e in cr['trace']]
+    if len(got) != cr['k'] and cr['rc'] == M.KILL_STATUS:
+        return False
+    for x, y in zip(got, flat):
+        if x[0] != y[0] or x[1] != y[1]:
+            return False
+    return True
